@@ -12,6 +12,9 @@ from .common import ScriptedApp, build_request, token_body
 PROPERTY = "C13"
 LEVEL = "fault_enumeration"
 BUDGET = {"quick": 40, "thorough": 540}
+# one evaluation of this family is a whole enumeration (hundreds of simulated runs, each compared in the
+# determinism self-test): fewer seeds than the default 6 / 40 already compare thousands of runs
+SELFTEST_N = {"quick": 2, "thorough": 10}
 RECV_ERRS = ["ECONNRESET", "ENOTCONN", "EBADF", "EINVAL", "ETIMEDOUT", "EAGAIN", "EOF", "FIN"]  # EAGAIN = spurious readiness
 SEND_ERRS = ["EPIPE", "ECONNRESET", "ENOTCONN", "EBADF", "EINVAL", "EHOSTUNREACH", "RST"]
 ACCEPT_ERRS = ["ECONNABORTED", "EMFILE", "EINVAL"]
